@@ -18,6 +18,7 @@ from xdsl.dialects.builtin import (
     AnyFloat,
     BytesAttr,
     DenseArrayBase,
+    FunctionType,
     IntegerType,
     StringAttr,
     UnitAttr,
@@ -954,7 +955,8 @@ class FunctionalTypeDirective(FormatDirective):
             )
         printer.print_string(" -> ")
         result_types = self.result_typeable_directive.get_types(op)
-        if len(result_types) == 1:
+        # A single result of function type keeps its parentheses
+        if len(result_types) == 1 and not isinstance(result_types[0], FunctionType):
             printer.print_attribute(result_types[0])
         else:
             with printer.in_parens():
